@@ -453,6 +453,74 @@ func genC18(c *Ctx) {
 		c.Emit(fmt.Sprintf("parse %s %s %d - -", hex.EncodeToString(b), sched, r.Intn(2)), true)
 		c.Count("real-segment")
 	}
+	c18BigBoxes(c)
+}
+
+// c18BigBoxes: boxes larger than the parser's buffer growth step (1 MiB): the same callbacks for every partition of the
+// reads (one read, 1 MiB, 64 KiB, odd sizes) and every initial buffer size; monitor only (the streams are too long for
+// the op protocol).
+func c18BigBoxes(c *Ctx) {
+	r := c.Rng
+	for _, P := range []int{1 << 20, 1<<20 + 1, 3 << 19, 3 << 20} {
+		if P > 2<<20 && !c.Thorough() && r.Intn(2) == 0 {
+			continue
+		}
+		mk := func(n int) []byte {
+			b := make([]byte, n)
+			for i := range b {
+				b[i] = byte(i*7 + n)
+			}
+			return b
+		}
+		stream := append([]byte{}, mkBox("styp", mk(16))...)
+		stream = append(stream, mkBox("moof", mk(100))...)
+		stream = append(stream, mkBox("mdat", mk(P))...)
+		stream = append(stream, mkBox("moof", mk(100))...)
+		stream = append(stream, mkBox("mdat", mk(500))...)
+		tag := fmt.Sprintf("# parse styp moof mdat(%d) moof mdat(500)", P)
+		var ref *parseOut
+		refName := ""
+		for _, sc := range []struct {
+			name  string
+			step  int
+			bufSz int
+		}{{"one read, buffer 1024", 0, 1024}, {"one read, buffer = stream", 0, len(stream)}, {"1 MiB reads", 1 << 20, 1024}, {"64 KiB reads", 1 << 16, 1024},
+			{"1000003-byte reads", 1000003, 4096}, {"7-byte and 1 MiB reads", -1, 1024}} {
+			var sched []int
+			switch {
+			case sc.step > 0:
+				for k := 0; k < len(stream)/sc.step+2; k++ {
+					sched = append(sched, sc.step)
+				}
+			case sc.step < 0:
+				for k := 0; k < 40; k++ {
+					sched = append(sched, 7, 1<<20)
+				}
+			}
+			out := runParse(stream, sched, r.Intn(2) == 0, -1, -1, sc.bufSz)
+			c.Count("big-box-parses")
+			var all []byte
+			for _, cb := range out.cbs {
+				all = append(all, cb.data...)
+			}
+			switch {
+			case out.kind != "done":
+				c.Violate("big-box", fmt.Sprintf("%s: a valid stream with a %d-byte mdat ends with %s", sc.name, P, out.kind), []string{tag}, nil)
+			case len(out.cbs) != 2 || !bytes.Equal(all, stream):
+				lens := []int{}
+				for _, cb := range out.cbs {
+					lens = append(lens, len(cb.data))
+				}
+				c.Violate("big-box", fmt.Sprintf("%s: %d callbacks with lengths %v (concatenation equals the input: %v), want one per complete mdat", sc.name, len(out.cbs), lens, bytes.Equal(all, stream)), []string{tag}, nil)
+			case ref != nil && !sameCbs(ref.cbs, out.cbs):
+				c.Violate("big-box", fmt.Sprintf("callbacks differ between '%s' and '%s'", refName, sc.name), []string{tag}, nil)
+			}
+			if ref == nil && out.kind == "done" {
+				o := out
+				ref, refName = &o, sc.name
+			}
+		}
+	}
 }
 
 // hugeBox walks the size fields like any box reader would and reports a reachable size above 16 MiB
